@@ -42,7 +42,8 @@ func zzApplyUnified(old, u string) (string, error) {
 	}
 	lines := strings.SplitAfter(u, "\n")
 	var out strings.Builder
-	pos := 0 // index into oldLines
+	zzOutLines := 0 // lines written to the new text so far
+	pos := 0        // index into oldLines
 	i := 0
 	for i < len(lines) && (strings.HasPrefix(lines[i], "--- ") || strings.HasPrefix(lines[i], "+++ ")) {
 		i++
@@ -74,17 +75,30 @@ func zzApplyUnified(old, u string) (string, error) {
 		}
 		a, b = parse(parts[0])
 		c, d = parse(parts[1])
-		_, _ = c, d
 		start := a - 1
 		if b == 0 {
 			start = a
 		}
+		hunkOldStart, hunkNewStart := start, zzOutLines
+		if start >= pos {
+			hunkNewStart = zzOutLines + (start - pos)
+		}
+		wantC := hunkNewStart + 1
+		if d == 0 {
+			wantC = hunkNewStart
+		}
+		if c != wantC {
+			return "", fmt.Errorf("hunk header %q: the new-file line number is %d, but the hunk starts at line %d of the new file", strings.TrimSpace(l), c, wantC)
+		}
+		oldSeen, newSeen := 0, 0
+		_ = hunkOldStart
 		if start < pos || start > len(oldLines) {
 			return "", fmt.Errorf("hunk start %d out of order (pos %d)", start, pos)
 		}
 		for pos < start {
 			out.WriteString(oldLines[pos])
 			pos++
+			zzOutLines++
 		}
 		i++
 		for i < len(lines) && lines[i] != "" && !strings.HasPrefix(lines[i], "@@ ") {
@@ -102,13 +116,19 @@ func zzApplyUnified(old, u string) (string, error) {
 				}
 				out.WriteString(body)
 				pos++
+				zzOutLines++
+				oldSeen++
+				newSeen++
 			case '-':
 				if pos >= len(oldLines) || oldLines[pos] != body {
 					return "", fmt.Errorf("deleted line %q does not match old line %d", body, pos)
 				}
 				pos++
+				oldSeen++
 			case '+':
 				out.WriteString(body)
+				zzOutLines++
+				newSeen++
 			default:
 				return "", fmt.Errorf("unexpected line %q", l)
 			}
@@ -116,6 +136,9 @@ func zzApplyUnified(old, u string) (string, error) {
 			if noNL {
 				i++
 			}
+		}
+		if oldSeen != b || newSeen != d {
+			return "", fmt.Errorf("hunk header %q announces %d old and %d new lines, the hunk holds %d and %d", strings.TrimSpace(l), b, d, oldSeen, newSeen)
 		}
 	}
 	for pos < len(oldLines) {
@@ -162,5 +185,42 @@ func TestVerifBounded(t *testing.T) {
 			}
 		}
 	}
-	fmt.Printf("BOUNDED {\"cases\": %d, \"bound\": \"all pairs of texts of at most %d symbols over {a, b, newline, U+00E9, U+4E16, invalid byte 0xFF}\"}\n", cases, maxLen)
+	// line-level sweep: a text of nLines numbered lines; every subset of its lines is changed (replaced by a
+	// new line, or deleted, or given a line inserted behind it), which produces every pattern of hunks -
+	// separate, joined by up to six equal lines, extended directly; the rendering must apply back and every
+	// hunk header must count its lines and place the hunk in the new file correctly
+	nLines := 14
+	if os.Getenv("VERIF_TIER") == "thorough" {
+		nLines = 17
+	}
+	var oldText strings.Builder
+	for i := 0; i < nLines; i++ {
+		fmt.Fprintf(&oldText, "line%d\n", i)
+	}
+	before := oldText.String()
+	for mode := 0; mode < 3; mode++ {
+		for mask := 1; mask < 1<<uint(nLines); mask++ {
+			cases++
+			var nw strings.Builder
+			for i := 0; i < nLines; i++ {
+				changed := mask&(1<<uint(i)) != 0
+				switch {
+				case !changed:
+					fmt.Fprintf(&nw, "line%d\n", i)
+				case mode == 0:
+					fmt.Fprintf(&nw, "LINE%d\n", i)
+				case mode == 1: // deleted
+				default:
+					fmt.Fprintf(&nw, "line%d\nnew%d\n", i, i)
+				}
+			}
+			after := nw.String()
+			u := Unified("a", "b", before, after)
+			back, err := zzApplyUnified(before, u)
+			if err != nil || back != after {
+				t.Fatalf("COUNTEREXAMPLE Unified of %d numbered lines with lines %b %s: %v; rendering:\n%s", nLines, mask, []string{"replaced", "deleted", "followed by an inserted line"}[mode], err, u)
+			}
+		}
+	}
+	fmt.Printf("BOUNDED {\"cases\": %d, \"bound\": \"all pairs of texts of at most %d symbols over {a, b, newline, U+00E9, U+4E16, invalid byte 0xFF}; a text of %d numbered lines with every non-empty subset of lines replaced / deleted / followed by an insertion, unified rendering applied back by a strict applier (hunk counts and new-file line numbers checked)\"}\n", cases, maxLen, nLines)
 }
